@@ -92,7 +92,7 @@ def draw_cfg(st):
             cname = EXTRACTABLE[st.choose(len(EXTRACTABLE), "xcls")]
             # fields | raise | collide (returns keys named like the fields eliot itself puts on failure
             # and traceback messages: exception, reason, action_status)
-            mode = ["raise", "raise", "fields", "collide"][st.choose(4, "xmode")]
+            mode = ["raise", "raise", "fields", "collide", "cross", "cross"][st.choose(6, "xmode")]
             if cname not in [c for c, _m in ex]:
                 ex.append([cname, mode])
     cfg["extractors"] = ex
